@@ -22,6 +22,7 @@ var gens = map[string]genFn{
 	"arb":     genArb,     // crafted and arbitrary bytes as decoder input (CHist with init)
 	"rewrite": genRewrite, // Bytes(); ReWrite / ReWriteU32; Bytes()  (CReWrite)
 	"stream":  genStream,  // ReaderX over a fragmenting source of several concrete reader types vs. BufferX (CStream)
+	"large":   genLarge,   // values of 64 KiB and more through both readers, compressed case terms (CLarge)
 	"hold":    genHold,    // results of reads kept uncopied while the buffer is reused, looked at again at the end (CHold)
 }
 
@@ -50,6 +51,8 @@ func main() {
 		for _, c := range corpus() {
 			e.Emit(c)
 		}
+		// the large-value cases are expensive to evaluate: they are spread over the case files, one every few hundred cases
+		pendingLarge := largeCorpus()
 		vol := map[string]int{
 			"round":   e.Scale(160, 2000),
 			"hist":    e.Scale(500, 8000),
@@ -57,6 +60,7 @@ func main() {
 			"rewrite": e.Scale(300, 4000),
 			"stream":  e.Scale(700, 12000),
 			"hold":    e.Scale(250, 4000),
+			"large":   e.Scale(8, 60),
 		}
 		if e.Search && e.Focus != "" {
 			f := strings.SplitN(e.Focus, "/", 2)[0]
@@ -70,7 +74,15 @@ func main() {
 				}
 			}
 		}
+		for i := 0; i < vol["large"]; i++ {
+			sub := e.Rnd.Int63()
+			for _, c := range genLarge(rand.New(rand.NewSource(sub)), e) {
+				c.Replay = fmt.Sprintf("large:%d", sub)
+				pendingLarge = append(pendingLarge, c)
+			}
+		}
 		counts := map[string]int{}
+		emitted := 0
 		for _, name := range genOrder {
 			for i := 0; i < vol[name]; i++ {
 				sub := e.Rnd.Int63()
@@ -78,10 +90,18 @@ func main() {
 					c.Replay = fmt.Sprintf("%s:%d", name, sub)
 					counts[c.Class]++
 					e.Emit(c)
+					emitted++
+					if emitted%250 == 0 && len(pendingLarge) > 0 {
+						e.Emit(pendingLarge[0])
+						pendingLarge = pendingLarge[1:]
+					}
 				}
 			}
 		}
-		e.Meta["generator"] = "c10/v2"
+		for _, c := range pendingLarge {
+			e.Emit(c)
+		}
+		e.Meta["generator"] = "c10/v3"
 		e.Meta["experiments"] = vol
 		e.Meta["string_prefix_cap_stream"] = prefixCap
 	})
